@@ -1060,6 +1060,9 @@ func (s ConcurrentFactStore) Merge(other ReadOnlyFactStore) {
 	if o, ok := other.(ConcurrentFactStore); ok && o.mutex == s.mutex {
 		return
 	}
+	if o, ok := other.(*ConcurrentFactStore); ok && o != nil && o.mutex == s.mutex {
+		return
+	}
 	s.mutex.Lock()
 	defer s.mutex.Unlock()
 	s.base.Merge(other)
